@@ -48,7 +48,7 @@ def parse_ignore_file(f: BinaryIO) -> set[str]:
     such and error is found. Optimise for the common case -- no decoding
     errors.
     """
-    from .globbing import normalize_pattern
+    from .globbing import normalize_ignore_pattern
 
     ignored = set()
     ignore_file = f.read()
@@ -75,7 +75,7 @@ def parse_ignore_file(f: BinaryIO) -> set[str]:
         uline = uline.rstrip("\r\n")
         if not uline or uline.startswith("#"):
             continue
-        ignored.add(normalize_pattern(uline))
+        ignored.add(normalize_ignore_pattern(uline))
     return ignored
 
 
@@ -123,12 +123,12 @@ def add_unique_user_ignores(new_ignores: set[str]):
     :param new_ignores: A list of ignore patterns
     :return: The list of ignores that were added
     """
-    from .globbing import normalize_pattern
+    from .globbing import normalize_ignore_pattern
 
     ignored = get_user_ignores()
     to_add: list[str] = []
     for ignore in new_ignores:
-        ignore = normalize_pattern(ignore)
+        ignore = normalize_ignore_pattern(ignore)
         if ignore not in ignored:
             ignored.add(ignore)
             to_add.append(ignore)
